@@ -223,6 +223,11 @@ func Run(tt *testing.T, rt *rapid.T, body func(e *Env)) {
 		}()
 		synctest.Test(bt, func(t *testing.T) {
 			e := &Env{RT: rt, TT: t, Net: NewNet(), Log: &History{start: time.Now()}}
+			if raceOn {
+				// a hot loop at one virtual instant costs an order of magnitude more real time under
+				// the race detector: break it earlier (such cases are inconclusive either way)
+				e.Net.SpinLimit = 4000
+			}
 			defer func() {
 				if r := recover(); r != nil {
 					saved = &failure{r}
